@@ -14,7 +14,7 @@ from declib2 import fill, Dec2, gen_block, spec, model1, has_zero_offset
 from capi import Lib
 from vlib import Oracle, build_lib, hx, md5
 
-THEOREMS = ["C05_valid_decodes", "C05_valid_decodes_safe", "C05_continue_step", "C05_success_sound", "C05_success_sound_strict_refuted", "C05_inplace_margin", "C05_fast_valid", "C05_fast_usingDict_valid", "C05_fast_continue_step"]
+THEOREMS = ["C05_valid_decodes", "C05_valid_decodes_safe", "C05_continue_step", "C05_success_sound", "C05_success_sound_strict_refuted", "C05_inplace_margin", "C05_fast_valid", "C05_fast_usingDict_valid", "C05_fast_continue_step", "C05_inplace_step_footprint", "C05_inplace_footprint_partial"]
 ORACLES = ["block", "dec2"]
 CORRESPONDENCE = [
     "dec_generic/decompress_usingDict model == LZ4_decompress_safe(_usingDict) on valid blocks (return value, whole destination image), fast loop on",
@@ -30,7 +30,7 @@ RULE = ("valid blocks generated from sequences by an independent encoder (profil
         "non-trivial = block with at least one match sequence; distinct = distinct (block, history length, entry point, capacity) tuples")
 TRUSTED = ["block specification Spec/BlockSpec.v (written from doc/lz4_Block_format.md) is the judge",
            "hand-written model Model/Dec.v, Model/DecApi.v, Model/DecStream.v tied by image comparison only",
-           "converse for the partial entry points uses a harness-side (Python) prefix decoder of the sequence semantics"]
+           "converse for the partial entry points: the specified prefix comes from the extracted Model.DecSem.specified_output (oracle dec2 semout); a harness-side (Python) prefix decoder is used only to classify the F5 class and for inputs above 4000+3000 bytes"]
 ASSUMPTIONS = ["buffers do not wrap the address space", "fixed-size LZ4_memcpy is load-then-store",
                "in-place decoding is exercised only for blocks with compressedSize < decompressedSize (documented presumption)"]
 
